@@ -4,6 +4,7 @@ import Proofs.Lemmas.SSZSchemaLegal
 import Proofs.Lemmas.SSZPolyNF
 import Proofs.Lemmas.SSZDenote
 import Proofs.Lemmas.SSZLeaf
+import Proofs.Lemmas.SSZDenoteLeaf
 /-!
 # C04 — SSZ encoding round-trips, agrees with declared lengths, and malformed input is refused
 
@@ -274,6 +275,120 @@ theorem checkType_sound_list (H : Hash2) (c : Config) (hpos : ∀ k, 0 < c k) (h
   exact ⟨⟨encode (.list (elem.eval c) (lim.eval c)), decode (.list (elem.eval c) (lim.eval c)), b,
       (Ty.list (elem.eval c) (lim.eval c)).fixedLen, htr H (.list (elem.eval c) (lim.eval c))⟩,
     by simp only [denoteList, e1, e2, e3, e4, e5], rfl, rfl, fun v hw => ⟨rfl, hb v hw, rfl⟩⟩
+
+open Zrnt.Schema Zrnt.Schema.Facts Zrnt.Gen.SszFacts in
+/-- no method of a row of the regenerated table is opaque (unfolded form of `no_opaque_bodies`) -/
+theorem row_methods_not_opaque (T : GoType) (hT : T ∈ types) :
+    T.deserialize.isOpaque = false ∧ T.serialize.isOpaque = false ∧ T.byteLength.isOpaque = false ∧
+    T.fixedLength.isOpaque = false ∧ T.hashTreeRoot.isOpaque = false := by
+  have hop := List.all_eq_true.mp no_opaque_bodies T hT
+  simp only [GoType.opaqueMethods, List.isEmpty_iff, List.map_eq_nil_iff, List.filter_eq_nil_iff] at hop
+  exact ⟨by simpa using hop ("Deserialize", T.deserialize) (by simp), by simpa using hop ("Serialize", T.serialize) (by simp),
+    by simpa using hop ("ByteLength", T.byteLength) (by simp), by simpa using hop ("FixedLength", T.fixedLength) (by simp),
+    by simpa using hop ("HashTreeRoot", T.hashTreeRoot) (by simp)⟩
+
+open Zrnt.Schema Zrnt.Schema.Facts Zrnt.Gen.SszFacts in
+/-- **Semantic soundness of the facts check, vector types** (`type RandaoMixes []Root`, `type DepositProof [33]Root`,
+`HistoricalBatchRoots`, the sync-committee key vectors, …). For a row whose schema is `Vector[elem, len]` and an
+implementation of the element type that *is* the specification at `elem`, what the five methods compute — ztyp's
+`w.Vector(item, size, len)` / `tree.WriteRoots`, `dr.Vector(item, size, len)` / `tree.ReadRoots`, `len(a) * size` resp.
+the constants of the length methods, and `ComplexVectorHTR / ChunksHTR / Uint64VectorHTR(…, len)`, with the size and
+length expressions of the bodies evaluated under `c`; a length the body takes from the receiver (`len(a)`) is the
+receiver's — is the specification at `Vector[elem, len]`: the length used by `Deserialize` and by `HashTreeRoot` is
+the schema's under every configuration and the packing helper fits the element type. -/
+theorem checkType_sound_vector (H : Hash2) (c : Config) (hpos : ∀ k, 0 < c k) (hsync : 4 ≤ c n!"SYNC_COMMITTEE_SIZE")
+    (T : GoType) (hT : T ∈ types) (hdev : T.name ∉ knownDeviations.map (·.1)) (elem : STy) (len : LExpr)
+    (hschema : Spec.lookup T.name = some (.vector elem len)) :
+    ∃ I, denoteVector H c owners views (specImpl H (elem.eval c)) T = some I ∧
+      I.des = decode ((STy.vector elem len).eval c) ∧ I.flen = ((STy.vector elem len).eval c).fixedLen ∧
+      ∀ v, WF ((STy.vector elem len).eval c) v →
+        I.ser v = encode ((STy.vector elem len).eval c) v ∧ I.blen v = byteLength ((STy.vector elem len).eval c) v ∧
+        I.root v = htr H ((STy.vector elem len).eval c) v := by
+  obtain ⟨hdes, hser, hbl, hfl, hroot⟩ := extract_vector owners views T elem len (ssz_methods_agree T hT hdev) hschema
+  have hleg := schema_types_legal c hpos hsync _ (lookup_mem _ _ hschema)
+  simp only [STy.eval, Ty.Legal] at hleg
+  obtain ⟨o1, o2, o3, o4, o5⟩ := row_methods_not_opaque T hT
+  have e1 := vecSer_sound H c owners views elem len hleg.2 _ o2 hser
+  have e2 := vecDes_sound H c owners views elem len hleg.2 _ o1 hdes
+  obtain ⟨b, e3, hb⟩ := vecBlen_sound c owners views elem len hleg.2 _ o3 hbl
+  have e4 := vecFlen_sound c owners views elem len _ o4 hfl
+  obtain ⟨r, e5, hr⟩ := vecRoot_sound H c owners views elem len _ o5 hroot
+  simp only [STy.eval]
+  exact ⟨⟨encode (.vector (elem.eval c) (len.eval c)), decode (.vector (elem.eval c) (len.eval c)), b,
+      (Ty.vector (elem.eval c) (len.eval c)).fixedLen, r⟩,
+    by simp only [denoteVector, e1, e2, e3, e4, e5], rfl, rfl, fun v hw => ⟨rfl, hb v hw, hr v hw⟩⟩
+
+/-- A leaf implementation over raw bytes that meets the specification at `t`, read through the encoding
+(`LeafImpl.lift`), is the specification on values: same statement shape as for structs, lists and vectors. -/
+theorem leaf_meets_lift (H : Hash2) (t : Ty) (L : LeafImpl) (h : L.Meets H t) :
+    (L.lift t).des = decode t ∧ (L.lift t).flen = t.fixedLen ∧
+    ∀ v, WF t v → (L.lift t).ser v = encode t v ∧ (L.lift t).blen v = byteLength t v ∧ (L.lift t).root v = htr H t v := by
+  obtain ⟨hd, hf, hv⟩ := h
+  refine ⟨?_, hf, fun v hw => hv v hw⟩
+  funext bs
+  simp only [LeafImpl.lift, hd]
+  cases hdec : decode t bs with
+  | none => rfl
+  | some v =>
+    have := (decode_some_imp_canonical t bs v hdec).1
+    simp only [Option.map_some, Option.bind_some, ← this, hdec]
+
+open Zrnt.Schema Zrnt.Schema.Facts Zrnt.Gen.SszFacts in
+/-- **Semantic soundness of the facts check, bit fields and byte lists** (`AttestationBits`, `SyncCommitteeBits`,
+`JustificationBits`-style bitvectors, `ExtraData`, `Transaction`, …): the Go value *is* the byte string. For a row whose
+schema is `Bitlist[lim]`, `Bitvector[lim]` or `ByteList[lim]`, the byte-level models of what the five methods call —
+`common.ReadBitList` with `BitlistCheck`, ztyp's `dr.Read` of the exact length / `dr.ByteList`-style scope read with the
+limit, `w.Write`, `len(a)` resp. the constant of the length methods, and `BitListHTR / BitVectorHTR / ByteListHTR(…,
+limit)` (chunk packing, delimiter-bit removal and length mix-in as in `Zrnt.SSZ.Impl`), with the limit expressions
+of the bodies evaluated under `c` — meet the specification at the schema: the set of accepted byte strings, the
+reported lengths and the root are the specification's, for the schema's limit under every configuration. -/
+theorem checkType_sound_bitfield (H : Hash2) (c : Config)
+    (T : GoType) (hT : T ∈ types) (hdev : T.name ∉ knownDeviations.map (·.1)) (lim : LExpr) (sty : STy)
+    (hkind : sty = .bitlist lim ∨ sty = .bitvector lim ∨ sty = .byteList lim)
+    (hschema : Spec.lookup T.name = some sty) :
+    ∃ L, denoteLeaf H c owners views T = some L ∧ L.Meets H (sty.eval c) := by
+  obtain ⟨o1, o2, o3, o4, o5⟩ := row_methods_not_opaque T hT
+  rcases hkind with rfl | rfl | rfl
+  · obtain ⟨h1, h2, h3, h4, h5⟩ := extract_bitlist owners views T lim (ssz_methods_agree T hT hdev) hschema
+    exact bitlist_row_sound H c owners views lim T o1 o2 o3 o4 o5 h1 h2 h3 h4 h5
+  · obtain ⟨h1, h2, h3, h4, h5⟩ := extract_bitvector owners views T lim (ssz_methods_agree T hT hdev) hschema
+    exact bitvector_row_sound H c owners views lim T o1 o2 o3 o4 o5 h1 h2 h3 h4 h5
+  · obtain ⟨h1, h2, h3, h4, h5⟩ := extract_byteList owners views T lim (ssz_methods_agree T hT hdev) hschema
+    exact bytelist_row_sound H c owners views lim T o1 o2 o3 o4 o5 h1 h2 h3 h4 h5
+
+open Zrnt.Schema Zrnt.Schema.Facts Zrnt.Gen.SszFacts in
+/-- **Semantic soundness of the facts check, leaf types** (integer aliases `Slot`, `Epoch`, `Gwei`, `ValidatorIndex`, …
+and byte arrays `Root`, `BLSPubkey`, `BLSSignature`, `Version`, `LogsBloom`, …). For a row whose schema is `uintN` or
+`BytesN`, the byte-level models of the five methods — `UintNView.Deserialize` / `dr.Read(p[:])` (exactly the fixed
+number of bytes), `w.WriteUintN` / `w.Write(p[:])`, the constant length reports, and the padded-chunk resp.
+`merkleize(pack(bytes))` root — meet the specification at the schema (width resp. length of the schema under `c`). -/
+theorem checkType_sound_leaf (H : Hash2) (c : Config)
+    (T : GoType) (hT : T ∈ types) (hdev : T.name ∉ knownDeviations.map (·.1)) (sty : STy)
+    (hkind : (∃ k, sty = .uint k) ∨ (∃ e, sty = .bytesN e))
+    (hschema : Spec.lookup T.name = some sty) :
+    ∃ L, denoteLeaf H c owners views T = some L ∧ L.Meets H (sty.eval c) := by
+  obtain ⟨o1, o2, o3, o4, o5⟩ := row_methods_not_opaque T hT
+  rcases hkind with ⟨k, rfl⟩ | ⟨e, rfl⟩
+  · obtain ⟨h1, h2, h3, h4, h5⟩ := extract_uint owners views T k (ssz_methods_agree T hT hdev) hschema
+    exact uint_row_sound H c owners views k T o1 o2 o3 o4 o5 h1 h2 h3 h4 h5
+  · obtain ⟨h1, h2, h3, h4, h5⟩ := extract_bytesN owners views T e (ssz_methods_agree T hT hdev) hschema
+    exact bytesN_row_sound H c owners views e T o1 o2 o3 o4 o5 h1 h2 h3 h4 h5
+
+open Zrnt.Schema Zrnt.Schema.Facts Zrnt.Gen.SszFacts in
+/-- the schema kind of a row: one of the eight kinds the four soundness theorems cover -/
+def rowKindCovered (T : GoType) : Bool :=
+  match Spec.lookup T.name, T.decl with
+  | some (.container _), .struct _ => true
+  | some (.list _ _), _ | some (.vector _ _), _ | some (.bitlist _), _ | some (.bitvector _), _ | some (.byteList _), _
+  | some (.uint _), _ | some (.bytesN _), _ => true
+  | _, _ => false
+
+open Zrnt.Schema Zrnt.Schema.Facts Zrnt.Gen.SszFacts in
+/-- **The soundness theorems cover every row**: each row of the regenerated table has a container schema with a struct
+declaration (`checkType_sound_struct`), a list schema (`checkType_sound_list`), a vector schema
+(`checkType_sound_vector`), a bitlist / bitvector / byte-list schema (`checkType_sound_bitfield`), or an integer /
+byte-array schema (`checkType_sound_leaf`) — no row falls outside (no `bool` or `union` typed Go SSZ type exists). -/
+theorem soundness_covers_all_rows : types.all rowKindCovered = true := by decide +kernel
 
 /-- **`common.ReadBitList`** (the bespoke bitlist reader of `AttestationBits.Deserialize`, with ztyp's
 `BitlistCheck`): its model accepts exactly the byte strings the specification's `Bitlist[limit]` decoder accepts —
